@@ -41,6 +41,7 @@ class Report:
         ]
         self.extra: dict = {}
         self.rules: dict[str, str] = {}
+        self.deferred: list[str] = []
 
     # -- recording --------------------------------------------------------
     def rule(self, rid: str, text: str) -> None:
@@ -103,6 +104,13 @@ class Report:
         if not cond:
             raise AnalysisError(msg)
         return cond
+
+    def defer(self, msg: str) -> None:
+        """An unrecognised shape that only blocks *one* rule: the other rules' verdicts stand.
+        If they find a violation it is reported (exit 1); otherwise the run ends as an
+        analysis error (exit 2) - never as a silent pass."""
+        if msg not in self.deferred:
+            self.deferred.append(msg)
 
     def floor(self, what: str, count: int, minimum: int) -> None:
         self.counters[what] = count
@@ -169,7 +177,15 @@ class Report:
             print(f"VIOLATION property={self.pid} replay={rp}")
         if replay_filter is None:
             self._write(len(new), len(listed))
-        return 1 if new else 0
+        if new:
+            for d in self.deferred:
+                print(f"NOTE: not analysed (shape not recognised): {d}")
+            return 1
+        if self.deferred:
+            for d in self.deferred:
+                print(f"ANALYSIS-ERROR property={self.pid}: {d}")
+            return 2
+        return 0
 
     def _write(self, nviol: int, nknown: int) -> None:
         EVIDENCE.mkdir(exist_ok=True)
